@@ -7,6 +7,8 @@
 import AHP.Lemmas.BuilderTop
 import AHP.Spec.Validate
 import AHP.Lemmas.ValidateTree
+import AHP.Lemmas.ValidateDoc
+import AHP.Lemmas.TotalBuilder
 import AHP.Props.C01
 namespace AHP.C13
 open AHP AHP.Spec
@@ -804,5 +806,246 @@ example : vFeedTokens (LNode.elem "a".toList ⟨[("1x".toList, none)], [], []⟩
 
 
 example : classify [] false [.start "a".toList [], .start "b".toList [], .end_ "a".toList] = some .missedClose := by decide
+
+
+/-! ### Document level for ARBITRARY token sequences: the two-pass `vFeedTokens` (after the review of the statements)
+
+`vRunT_classify` and `vRunT_ok_same_tree` are about one pass on a tree state.  The parser of the property is
+`vFeedTokens`: first pass; on MultipleRootNodeException the wrapped second pass.  Below: (i) the transfer of
+MultipleRootNodeException to the plain parser, (ii) "when it does not raise it builds the same tree" for every
+token sequence (multi-root, unclosed tails included), (iii) which exception `vFeedTokens` raises, by `classify`
+over the pass that raises, (iv) the plain parser never raises one of the three validator exceptions. -/
+
+/-- one callback: when the validating handler succeeds, the plain handler does the same -/
+theorem vStepT_ok_stepT (s s1 : TState) (t : Token) (hv : vStepT s t = .ok s1) : stepT s t = .ok s1 := by
+  have := vRunT_ok_same_tree [t] s s1 (by simp [vRunT, hv])
+  simp only [runT] at this
+  cases hs : stepT s t <;> rw [hs] at this <;> simp at this
+  rw [this]
+
+/-- one callback: the validating handler raises MultipleRootNodeException only where the plain handler does -/
+theorem vStepT_multipleRoot_stepT (s : TState) (t : Token) (hv : vStepT s t = .multipleRoot) :
+    stepT s t = .multipleRoot := by
+  cases t with
+  | start n a =>
+    simp only [vStepT] at hv; split at hv
+    · exact hv
+    · cases hv
+  | startend n a =>
+    simp only [vStepT] at hv; split at hv
+    · exact hv
+    · cases hv
+  | end_ n =>
+    simp only [vStepT] at hv
+    split at hv
+    · cases hv
+    · split at hv
+      · cases hv
+      · split at hv <;> cases hv
+  | decl d => exact hv
+  | unknownDecl d => exact hv
+  | pi d => exact hv
+  | comment d => exact hv
+  | entity d => exact hv
+  | charref d => exact hv
+  | data d => exact hv
+
+/-- **(i) transfer.**  A validating pass that ends in MultipleRootNodeException: the plain pass ends there too
+    (so both parsers take the retry together). -/
+theorem vRunT_multipleRoot_transfer (ts : List Token) : ∀ s : TState,
+    vRunT s ts = .multipleRoot → runT s ts = .multipleRoot := by
+  induction ts with
+  | nil => intro s h; cases h
+  | cons t ts ih =>
+    intro s h
+    simp only [vRunT] at h
+    cases hv : vStepT s t with
+    | ok s1 =>
+      rw [hv] at h
+      simp only [runT, vStepT_ok_stepT s s1 t hv]
+      exact ih s1 h
+    | multipleRoot => simp only [runT, vStepT_multipleRoot_stepT s t hv]
+    | invalidClose => rw [hv] at h; cases h
+    | missedClose => rw [hv] at h; cases h
+    | invalidAttr => rw [hv] at h; cases h
+
+/-- **(ii) C13c at document level.**  For EVERY token sequence — multi-root, fragments, unclosed tails —: when the
+    validating parser does not raise, the plain parser returns the same document, in the same pass. -/
+theorem vFeed_doc_same (ts : List Token) (d : Doc) (b : Bool) (h : vFeedTokens ts = .doc d b) :
+    feedTokens ts = .doc d b := by
+  unfold vFeedTokens at h
+  unfold feedTokens
+  rw [vRun_eq] at h
+  rw [run_eq]
+  cases h1 : vRunT BState.init.tree ts with
+  | ok s1 =>
+    rw [h1] at h
+    rw [vRunT_ok_same_tree ts _ s1 h1]
+    exact h
+  | multipleRoot =>
+    rw [h1] at h
+    rw [vRunT_multipleRoot_transfer ts _ h1]
+    simp only [Outcome.map] at h ⊢
+    rw [vRun_eq] at h
+    rw [run_eq]
+    cases h2 : vRunT BState.init.tree (wrapToks ts) with
+    | ok s2 =>
+      rw [h2] at h
+      rw [vRunT_ok_same_tree _ _ s2 h2]
+      exact h
+    | multipleRoot => rw [h2] at h; simp [Outcome.map, FeedResult.ofPass] at h
+    | invalidClose => rw [h2] at h; simp [Outcome.map, FeedResult.ofPass] at h
+    | missedClose => rw [h2] at h; simp [Outcome.map, FeedResult.ofPass] at h
+    | invalidAttr => rw [h2] at h; simp [Outcome.map, FeedResult.ofPass] at h
+  | invalidClose => rw [h1] at h; simp [Outcome.map, FeedResult.ofPass] at h
+  | missedClose => rw [h1] at h; simp [Outcome.map, FeedResult.ofPass] at h
+  | invalidAttr => rw [h1] at h; simp [Outcome.map, FeedResult.ofPass] at h
+
+/-- the class of a whole `feed`: the first pass's; when that is "several top-level nodes", the wrapped pass's -/
+def feedClass (ts : List Token) : Option Exc :=
+  match classify [] false ts with
+  | some .multipleRoot => classify [] false (wrapToks ts)
+  | c => c
+
+private theorem classify_init (ts : List Token) : classify [] false ts = outClass (vRunT TState.init ts) :=
+  (vRunT_classify ts TState.init).symm
+
+/-- **(iii) which exception, at document level.**  `vFeedTokens` raises `e` exactly when the names-only scan
+    reports `e` for the pass that raises: the first pass — or, when the first pass stops at a second top-level
+    node, the wrapped second pass (e.g. a stray close AFTER a second root surfaces in pass 2). -/
+theorem vFeed_raises_iff (ts : List Token) (e : Exc) : vFeedTokens ts = .raised e ↔ feedClass ts = some e := by
+  unfold vFeedTokens feedClass
+  rw [vRun_eq, classify_init ts]
+  have hi : BState.init.tree = TState.init := rfl
+  rw [hi]
+  cases h1 : vRunT TState.init ts with
+  | ok s1 => simp [Outcome.map, FeedResult.ofPass, outClass]
+  | multipleRoot =>
+    simp only [Outcome.map, outClass]
+    rw [vRun_eq, classify_init (wrapToks ts), hi]
+    cases h2 : vRunT TState.init (wrapToks ts) <;>
+      simp [Outcome.map, FeedResult.ofPass, outClass, Outcome.exc, eq_comm]
+  | invalidClose => simp [Outcome.map, FeedResult.ofPass, outClass, Outcome.exc, eq_comm]
+  | missedClose => simp [Outcome.map, FeedResult.ofPass, outClass, Outcome.exc, eq_comm]
+  | invalidAttr => simp [Outcome.map, FeedResult.ofPass, outClass, Outcome.exc, eq_comm]
+
+/-- … and it returns a document exactly when the scan accepts; the pass flag says whether the first pass met a
+    second top-level node -/
+theorem vFeed_doc_iff (ts : List Token) : (∃ d b, vFeedTokens ts = .doc d b) ↔ feedClass ts = none := by
+  constructor
+  · rintro ⟨d, b, h⟩
+    cases hc : feedClass ts with
+    | none => rfl
+    | some e => rw [(vFeed_raises_iff ts e).mpr hc] at h; cases h
+  · intro hc
+    cases h : vFeedTokens ts with
+    | doc d b => exact ⟨d, b, rfl⟩
+    | raised e => rw [(vFeed_raises_iff ts e).mp h] at hc; cases hc
+
+theorem vFeed_second_pass_iff (ts : List Token) (d : Doc) (b : Bool) (h : vFeedTokens ts = .doc d b) :
+    b = true ↔ classify [] false ts = some .multipleRoot := by
+  unfold vFeedTokens at h
+  rw [vRun_eq, classify_init ts] at *
+  have hi : BState.init.tree = TState.init := rfl
+  rw [hi] at h
+  cases h1 : vRunT TState.init ts with
+  | ok s1 => rw [h1] at h; simp [Outcome.map, FeedResult.ofPass] at h; simp [outClass, ← h.2]
+  | multipleRoot =>
+    rw [h1] at h
+    simp only [Outcome.map] at h
+    rw [vRun_eq, hi] at h
+    cases h2 : vRunT TState.init (wrapToks ts) <;> rw [h2] at h <;>
+      simp [Outcome.map, FeedResult.ofPass] at h
+    simp [outClass, ← h.2]
+  | invalidClose => rw [h1] at h; simp [Outcome.map, FeedResult.ofPass] at h
+  | missedClose => rw [h1] at h; simp [Outcome.map, FeedResult.ofPass] at h
+  | invalidAttr => rw [h1] at h; simp [Outcome.map, FeedResult.ofPass] at h
+
+/-- (iii) in the declarative reading (`Spec.FirstError`: the first token in error, context by the names-only
+    fold): one pass -/
+theorem vRunT_firstError (ts : List Token) (s : TState) (e : Exc) :
+    outClass (vRunT s ts) = some e ↔ FirstError (names s) s.hasRoot ts e := by
+  rw [vRunT_classify]; exact classify_some_iff ts _ _ e
+
+/-- … and acceptance: no token in error -/
+theorem vRunT_accepts_iff_clean (ts : List Token) (s : TState) :
+    (∃ s', vRunT s ts = .ok s') ↔ Clean (names s) s.hasRoot ts := by
+  rw [← classify_none_iff, ← vRunT_classify]
+  cases vRunT s ts <;> simp [outClass]
+
+/-- **(iv)** the plain parser never ends in one of the three validator exceptions — so "never one of the three
+    validator exceptions" for a document on which both parsers agree is a statement about the validating parser -/
+theorem feedTokens_never_validator_exception (ts : List Token) :
+    feedTokens ts ≠ .raised .invalidClose ∧ feedTokens ts ≠ .raised .missedClose ∧
+    feedTokens ts ≠ .raised .invalidAttr := by
+  have key : ∀ e, feedTokens ts = .raised e → e = .multipleRoot := by
+    intro e h
+    unfold feedTokens at h
+    rw [run_eq] at h
+    rcases runT_ok_or_multipleRoot ts BState.init.tree with ⟨s', h1⟩ | h1
+    · rw [h1] at h; simp [Outcome.map, FeedResult.ofPass] at h
+    · rw [h1] at h
+      simp only [Outcome.map] at h
+      rw [run_eq] at h
+      rcases runT_ok_or_multipleRoot (wrapToks ts) BState.init.tree with ⟨s2, h2⟩ | h2
+      · rw [h2] at h; simp [Outcome.map, FeedResult.ofPass] at h
+      · rw [h2] at h; simp [Outcome.map, FeedResult.ofPass, Outcome.exc] at h; exact h.symm
+  refine ⟨?_, ?_, ?_⟩ <;> intro h <;> have := key _ h <;> cases this
+
+/-- when the validating parser raises MultipleRootNodeException (the wrapped pass met a further top-level node:
+    the input closes the wrapper itself), so does the plain parser -/
+theorem vFeed_multipleRoot_same (ts : List Token) (h : vFeedTokens ts = .raised .multipleRoot) :
+    feedTokens ts = .raised .multipleRoot := by
+  unfold vFeedTokens at h
+  unfold feedTokens
+  rw [vRun_eq] at h
+  rw [run_eq]
+  cases h1 : vRunT BState.init.tree ts with
+  | ok s1 => rw [h1] at h; simp [Outcome.map, FeedResult.ofPass] at h
+  | multipleRoot =>
+    rw [h1] at h
+    rw [vRunT_multipleRoot_transfer ts _ h1]
+    simp only [Outcome.map] at h ⊢
+    rw [vRun_eq] at h
+    rw [run_eq]
+    cases h2 : vRunT BState.init.tree (wrapToks ts) with
+    | ok s2 => rw [h2] at h; simp [Outcome.map, FeedResult.ofPass] at h
+    | multipleRoot => rw [vRunT_multipleRoot_transfer _ _ h2]; rfl
+    | invalidClose => rw [h2] at h; simp [Outcome.map, FeedResult.ofPass, Outcome.exc] at h
+    | missedClose => rw [h2] at h; simp [Outcome.map, FeedResult.ofPass, Outcome.exc] at h
+    | invalidAttr => rw [h2] at h; simp [Outcome.map, FeedResult.ofPass, Outcome.exc] at h
+  | invalidClose => rw [h1] at h; simp [Outcome.map, FeedResult.ofPass, Outcome.exc] at h
+  | missedClose => rw [h1] at h; simp [Outcome.map, FeedResult.ofPass, Outcome.exc] at h
+  | invalidAttr => rw [h1] at h; simp [Outcome.map, FeedResult.ofPass, Outcome.exc] at h
+
+/-! #### Non-vacuity (document level) -/
+
+/-- a non-balanced multi-root input whose error is in the SECOND pass: `<a></a><b></c>` — the first pass stops
+    at the second root `<b>` (MultipleRootNodeException), the wrapped pass meets the stray `</c>` -/
+def twoRootsStray : List Token :=
+  [.start "a".toList [], .end_ "a".toList, .start "b".toList [], .end_ "c".toList]
+
+example : vRunT TState.init twoRootsStray = .multipleRoot := by rfl
+example : vFeedTokens twoRootsStray = .raised .invalidClose := by rfl
+example : classify [] false twoRootsStray = some .multipleRoot := by decide
+example : feedClass twoRootsStray = some .invalidClose := by decide
+/-- the plain parser accepts it (wrapper pass, `b` closed at end of input, `</c>` ignored) -/
+example : ∃ d, feedTokens twoRootsStray = .doc d true := ⟨_, rfl⟩
+
+/-- an unclosed tail in a multi-root input: in pass 2 the wrapper's own end tag meets `b` still open — a skipped
+    close (MissedCloseException); the plain parser accepts the same input (`vFeed_doc_same` is not vacuous the
+    other way round: see the next example) -/
+example : vFeedTokens [.start "a".toList [], .end_ "a".toList, .start "b".toList []] = .raised .missedClose := by rfl
+
+/-- … while a multi-root input with every element closed is accepted in pass 2 with the plain parser's document -/
+example : ∃ d, vFeedTokens [.start "a".toList [], .end_ "a".toList, .data "x".toList, .start "b".toList [], .end_ "b".toList]
+      = .doc d true ∧
+    feedTokens [.start "a".toList [], .end_ "a".toList, .data "x".toList, .start "b".toList [], .end_ "b".toList]
+      = .doc d true :=
+  ⟨_, rfl, rfl⟩
+
+/-- the declarative reading on the same input: the first token in error is the fourth, in the context `[]` -/
+example : FirstError [] false twoRootsStray .multipleRoot :=
+  (classify_some_iff _ _ _ _).mp (by decide)
 
 end AHP.C13
